@@ -43,7 +43,11 @@ def canon_val(v):
             dt = "float64"
         else:
             return ["other", f"ndarray:{v.dtype}"]
-        return ["arr", dt, [int(d) for d in v.shape], v.tobytes().hex()]
+        out = ["arr", dt, [int(d) for d in v.shape], v.tobytes(order="C").hex()]  # element-wise content, C order
+        if not v.flags["C_CONTIGUOUS"]:
+            # memory layout of the in-memory object: generator/replay information only, never compared
+            out.append("F" if v.flags["F_CONTIGUOUS"] else "S")
+        return out
     if isinstance(v, (int, np.integer)):
         return ["int", int(v)]
     if isinstance(v, float):  # np.float64 is a float
@@ -105,7 +109,11 @@ def _unordered(items):
 def norm_cell(c, ordered):
     """Comparison key of a wire cell.  ordered=False: dictionaries as sets of typed entries (what
     the property demands); ordered=True: insertion order kept (model vs implementation)."""
-    f = (lambda x: x) if ordered else _unordered
+    f0 = (lambda x: x) if ordered else _unordered
+
+    def f(items):
+        return f0([[k, (v[:4] if v and v[0] == "arr" else v)] for k, v in items])
+
     m = dict(c["meta"])
     m["details"] = f(m["details"])
     m["loss_details"] = f(m["loss_details"])
@@ -151,8 +159,15 @@ def mk_val(v):
     if t == "date":
         return datetime.date(*v[1])
     if t == "arr":
-        a = np.frombuffer(bytes.fromhex(v[3]), dtype=np.dtype(v[1])).reshape(tuple(v[2]))
-        return a.copy()
+        a = np.frombuffer(bytes.fromhex(v[3]), dtype=np.dtype(v[1])).reshape(tuple(v[2])).copy()
+        layout = v[4] if len(v) > 4 else "C"
+        if layout == "F":      # Fortran-ordered memory (what np.asfortranarray(a) / a transposed view has)
+            a = np.asfortranarray(a) if a.size % 2 == 0 else np.ascontiguousarray(a.T).T
+        elif layout == "S":    # non-contiguous slice big[..., ::2] of a wider array
+            big = np.zeros(a.shape[:-1] + (2 * a.shape[-1],), dtype=a.dtype)
+            big[..., ::2] = a
+            a = big[..., ::2]
+        return a
     raise ValueError(f"bad wire value {v!r}")
 
 
@@ -342,6 +357,11 @@ def gen_array(rng):
     dt = rng.choice(["int64", "float64"])
     nd = rng.choice([0, 1, 1, 1, 2, 2, 3])
     dims = [rng.choice([0, 1, 2, 3, 4, 7]) if rng.random() < 0.9 else rng.choice([0, 10, 16]) for _ in range(nd)]
+    layout = None
+    if nd >= 2 and rng.random() < 0.5:
+        # non-C-contiguous in-memory arrays: Fortran order / transposed view / strided slice, all dims >= 2
+        dims = [rng.choice([2, 3, 4, 5]) for _ in range(nd)]
+        layout = rng.choice(["F", "F", "S"])
     n = 1
     for d in dims:
         n *= d
@@ -349,7 +369,7 @@ def gen_array(rng):
         payload = b"".join(struct.pack("<q", gen_int(rng)) for _ in range(n))
     else:
         payload = b"".join(bytes.fromhex(gen_float_hex(rng)) for _ in range(n))
-    return ["arr", dt, dims, payload.hex()]
+    return ["arr", dt, dims, payload.hex()] + ([layout] if layout else [])
 
 
 def gen_cell_value(rng, weights=None):
@@ -812,7 +832,8 @@ def ref_decode(buf: bytes):
 def wt_summary(wt):
     kinds = sorted({c["kind"] for c in wt})
     metas = {repr(c["meta"]) for c in wt}
-    vt = sorted({v[0] if v[0] != "arr" else f"arr{len(v[2])}d" for c in wt for _, v in c["values"]})
+    vt = sorted({v[0] if v[0] != "arr" else f"arr{len(v[2])}d" + (f"-{v[4]}order" if len(v) > 4 else "")
+                 for c in wt for _, v in c["values"]})
     dt = sorted({v[0] for c in wt for _, v in c["meta"]["details"] + c["meta"]["loss_details"]})
     return {"cells": len(wt), "slices": len(metas), "kinds": kinds, "keys": len(all_keys_sorted(wt)),
             "value_types": vt, "detail_types": dt}
